@@ -147,7 +147,27 @@ func doHugeBlob(body json.RawMessage) (resp map[string]interface{}) {
 		}
 		g.RegisterBlob(h.OID, h.ObjectSize)
 	}
+	// one tree holding every blob once: its expansion is the 64-bit sum of the sizes
+	var tb []byte
+	for i := range rq.Sizes {
+		var raw [20]byte
+		raw[19] = byte(i + 1)
+		tb = append(tb, []byte(fmt.Sprintf("100644 f%02d\x00", i))...)
+		tb = append(tb, raw[:]...)
+	}
+	toid, _ := git.NewOID(fmt.Sprintf("%040x", 0xffff))
+	tree, err := git.ParseTree(toid, tb)
+	if err != nil {
+		resp["error"] = err.Error()
+		return
+	}
+	if err := g.RegisterTree(toid, tree); err != nil {
+		resp["error"] = err.Error()
+		return
+	}
 	hs := g.HistorySize()
+	resp["max_expanded_blob_size"] = fmt.Sprint(uint64(hs.MaxExpandedBlobSize))
+	resp["max_expanded_blob_count"] = fmt.Sprint(uint64(hs.MaxExpandedBlobCount))
 	resp["unique_blob_size"] = fmt.Sprint(uint64(hs.UniqueBlobSize))
 	resp["max_blob_size"] = fmt.Sprint(uint64(hs.MaxBlobSize))
 	resp["unique_blob_count"] = fmt.Sprint(uint64(hs.UniqueBlobCount))
